@@ -201,6 +201,7 @@ func RunC08(e *core.Env) int {
 		shapeOf[id] = map[string]scen.Shape{}
 		for i, sh := range legal[start:end] {
 			shapeOf[id][fmt.Sprintf("M%d", i)] = sh
+			shapeOf[id][fmt.Sprintf("D%d", i)] = sh // recv shapes named like their result type (scen.GenShapes)
 		}
 	}
 	for start, bi := 0, 0; start < len(ss); start, bi = start+60, bi+1 {
